@@ -177,6 +177,12 @@ func fmtArg(fr *frame, verb byte, flags string, a value) value {
 		}
 		t, v = ifc.t, ifc.v
 	}
+	if t != nil && verb != 'T' && bigIntType(t) {
+		// math/big.Int / *math/big.Int implement fmt.Formatter: the decimal (or %x ...) rendering of the value
+		if pv, isPtr := v.(*value); !isPtr || pv != nil {
+			return fmt.Sprintf("%"+flags+string(verb), bigOf(v))
+		}
+	}
 	if verb == 'T' {
 		if t == nil {
 			return "<nil>"
